@@ -86,6 +86,16 @@ def sized_bytes(rng, n):
     return bytes(rng.randrange(256) for _ in range(n))
 
 
+DIGEST_SIZE = {"md5": 16, "sha1": 20, "sha224": 28, "sha256": 32, "sha384": 48, "sha512": 64}
+CHALLENGE_WORDS = ["pw", "hunter22", "", "p\u00e4ss w\u00f6rd", "wrong-guess", "PW"]
+
+
+def digest_of_plain(alg, plain, salt):
+    """neutral form of DigestValue(salt, hash(salt + plain), alg) (computed with hashlib, not with the library)"""
+    import hashlib
+    return {"__digest__": [salt, hashlib.new(alg, salt + plain.encode("utf-8")).digest()], "__plain__": plain}
+
+
 def r_text(rng, prof):
     if rng.random() < 0.3:
         return rng.choice(SPECIAL)
@@ -260,10 +270,13 @@ def gen_val(rng, nd, prof, normal=False):
         r = rng.random()
         if r < 0.7 or normal:
             return rng.choice(["pw", "hunter22", "", "päss wörd", r_text(rng, dict(prof, xml=True))])
-        if r < 0.8:
+        if r < 0.75:
             return b"raw\x00bytes"
-        n = {"md5": 16, "sha1": 20, "sha224": 28, "sha256": 32, "sha384": 48, "sha512": 64}[p["alg"]]
-        return {"__digest__": [bytes(rng.randrange(256) for _ in range(n)), bytes(rng.randrange(256) for _ in range(n))]}
+        n = DIGEST_SIZE[p["alg"]]
+        if r < 0.87:
+            return {"__digest__": [bytes(rng.randrange(256) for _ in range(n)), bytes(rng.randrange(256) for _ in range(n))]}
+        # a DigestValue built by hand: salt shorter than, equal to or longer than the digest; the plaintext is kept for the challenge
+        return digest_of_plain(p["alg"], rng.choice(CHALLENGE_WORDS[:4]), bytes(rng.randrange(256) for _ in range(rng.choice([1, n // 2, n - 1, n, n + 1, 2 * n, 100]))))
     if k == "secure":
         r = rng.random()
         if r < 0.1 and not req:
@@ -551,6 +564,38 @@ def matrix_rich():
                ("set", (("key", "sub"),), "s", sized_text(1000, mb, 7), "attr"), ("set", (("key", "sub"),), "b", sized_bytes(lrng, 255), "dotted"),
                ("append", (), "items", [("set", (), "s", sized_text(2000, mb, 8), "attr"), ("set", (), "b", sized_bytes(lrng, 100), "attr")])]
         cases.append(rcase(fields, ops, "matrix-long-values", seed=500 + len(cases)))
+    # the FILE route with documents whose first byte is ASCII white space: a BSON document starts with its own length
+    # (little endian), so total lengths 9..13, 32, 0x120, 0x2009 start with \t \n \v \f \r or a space.  One field, the length
+    # steered by the field name: null value 7+n, bool 8+n, int32 11+n, string 12+n+len
+    for name_len, nd, ops in ([(n, L("int", {"min": None, "max": None}), None) for n in (2, 3, 4, 5, 6, 25)]
+                              + [(n, L("bool"), True) for n in (1, 2, 3, 4, 5, 24)]
+                              + [(n, L("int", {"min": None, "max": None}), 7) for n in (1, 2, 21)]
+                              + [(1, L("str", {}), sized_text(0x2009 - 13, False, 3)), (1, L("str", {}), sized_text(0x120 - 13, False, 4)),
+                                 (1, L("str", {}), sized_text(0x200a - 13, False, 5))]):
+        key = ("abcdefghijklmnopqrstuvwxyz" * 2)[:name_len]
+        cases.append(rcase([(key, nd)], [] if ops is None else [("set", (), key, ops, "attr")], "matrix-file-edge", kf={"use": False, "exists": False},
+                           seed=600 + len(cases)))
+    # text documents that begin / end with white space inside a value
+    for val in ("  lead and trail \n", "\n", " ", "x\n\n"):
+        cases.append(rcase([("s", L("str", {}))], [("set", (), "s", val, "attr")], "matrix-file-edge", kf={"use": False, "exists": False}, seed=600 + len(cases)))
+    # challenge values: plaintexts, raw bytes, DigestValue objects with a salt shorter than / as long as / longer than the digest
+    # (built with an explicit salt), at the root / nested / in list items / in typed lists and dicts
+    for alg in HASHES:
+        n = DIGEST_SIZE[alg]
+        ch = lambda: L("challenge", {"alg": alg})   # noqa: E731
+        ich = {"kind": "challenge", "p": {"alg": alg}}
+        fields = [("short", ch()), ("same", ch()), ("long", ch()), ("huge", ch()), ("plain", ch()), ("raw", ch()),
+                  ("cl", L("list", {"item": ich})), ("cd", L("dict", {"key": "str", "value": ich})),
+                  ("sub", {"t": "sub", "dyn": False, "fields": [("ch", ch()), ("deep", {"t": "ctype", "fields": [("ch", ch())]})]}),
+                  ("items", {"t": "cfglist", "ctype": False, "required": False, "fields": [("ch", ch())]})]
+        dg = lambda w, k, fill: digest_of_plain(alg, w, bytes((fill + i) % 256 for i in range(k)))   # noqa: E731
+        ops = [("set", (), "short", dg("pw", n // 2, 1), "attr"), ("set", (), "same", dg("hunter22", n, 2), "attr"),
+               ("set", (), "long", dg("pw", n + 1, 3), "attr"), ("set", (), "huge", dg("", 3 * n + 5, 4), "attr"),
+               ("set", (), "plain", "p\u00e4ss w\u00f6rd", "attr"), ("set", (), "raw", b"pw", "attr"),
+               ("set", (), "cl", [dg("pw", n + 9, 5), "hunter22", dg("PW", 1, 6)], "attr"), ("set", (), "cd", {"a": dg("pw", 2 * n, 7), "b1": "pw"}, "attr"),
+               ("set", (("key", "sub"),), "ch", dg("hunter22", n + 16, 8), "dotted"), ("set", (("key", "sub"), ("key", "deep")), "ch", dg("pw", n + 2, 9), "attr"),
+               ("append", (), "items", [("set", (), "ch", dg("pw", 100, 10), "attr")]), ("append", (), "items", [("set", (), "ch", "hunter22", "attr")])]
+        cases.append(rcase(fields, ops, "matrix-challenge", seed=700 + len(cases)))
     # F41: required secret; the empty string is refused, the secret stays; empty optional secret comes back unset
     fields = [("req", L("secure", {"method": "xor"}, required=True)), ("opt", L("secure", {"method": "aes"})), ("dflt", L("secure", {"method": "xor"}, default="")),
               ("sl", L("list", {"item": {"kind": "secure", "p": {"method": "xor"}}}))]
@@ -766,7 +811,10 @@ def model_case(rng, nops, combos=None):
 
 
 def rotate(rng, tier):
-    """every format x option for every case (a case costs ~10 ms); kept as a hook for a cheaper quick tier"""
+    """random cases: every format, both JSON layouts and a YAML root key; the non-default XML root tag comes with the colliding
+    options (two per random case) and the file route, so the fixed `root_tag=cfg` is left to the matrix cases in the quick tier"""
+    if tier == "quick":
+        return [c for c in COMBOS if c != ("xml", {"root_tag": "cfg"})]
     return COMBOS
 
 
@@ -816,22 +864,33 @@ def colliding_combos(case, rng, everything):
     for t in dict.fromkeys(xtags):
         out.append(["xml", {"root_tag": t}])
     if not everything:
-        out = rng.sample(out, min(len(out), 3))
+        out = rng.sample(out, min(len(out), 2))
     return out
+
+
+FILE_FORMATS = ["json", "yaml", "bson", "xml", "pickle"]
+
+
+def file_combos(rng, everything):
+    """the file route (save / load take no format options): every format for matrix cases, BSON (binary, length-prefixed)
+    and one other format otherwise"""
+    fmts = FILE_FORMATS if everything else ["bson", rng.choice(["json", "yaml", "xml", "pickle"])]
+    return [[f, {}, "file"] for f in fmts]
 
 
 def generate(rng, tier):
     cases = matrix_rich() + matrix_model()
     for c in cases:
-        c["combos"] = [list(x) for x in c["combos"]] + colliding_combos(c, random.Random(c.get("seed", 0) + 77), True)
+        r2 = random.Random(c.get("seed", 0) + 77)
+        c["combos"] = [list(x) for x in c["combos"]] + colliding_combos(c, r2, True) + file_combos(r2, True)
     n_rich, n_model = (400, 400) if tier == "quick" else (5000, 5000)
     for _ in range(n_rich):
         c = rich_case(rng, combos=rotate(rng, tier))
-        c["combos"] = [list(x) for x in c["combos"]] + colliding_combos(c, rng, False)
+        c["combos"] = [list(x) for x in c["combos"]] + colliding_combos(c, rng, False) + file_combos(rng, False)
         cases.append(c)
     for _ in range(n_model):
         c = model_case(rng, 7 if tier == "quick" else 16, combos=rotate(rng, tier))
-        c["combos"] = [list(x) for x in c["combos"]] + colliding_combos(c, rng, False)
+        c["combos"] = [list(x) for x in c["combos"]] + colliding_combos(c, rng, False) + file_combos(rng, False)
         cases.append(c)
     return cases
 
@@ -847,7 +906,7 @@ def gcase(case):
 # =============================================================================================
 def dec(v, field=None):
     """neutral value -> Python value (explicit digests)"""
-    if isinstance(v, dict) and set(v) == {"__digest__"}:
+    if isinstance(v, dict) and "__digest__" in v and set(v) <= {"__digest__", "__plain__"}:
         from cincoconfig import DigestValue
         alg = field.algorithm if field is not None else None
         return DigestValue(bytes(v["__digest__"][0]), bytes(v["__digest__"][1]), alg)
@@ -1271,6 +1330,16 @@ def cmp_cfg(a, b, path, out, norms):
         cmp_val(f, va, vb, p, out, norms)
 
 
+def _challenge(dv, w):
+    try:
+        dv.challenge(w)
+        return "passes"
+    except ValueError:
+        return "fails"
+    except Exception as e:  # noqa
+        return "raises %s" % type(e).__name__
+
+
 def cmp_val(f, va, vb, p, out, norms):
     import cincoconfig as cc
     from cincoconfig.core import Schema, isconfigtype
@@ -1326,6 +1395,16 @@ def cmp_val(f, va, vb, p, out, norms):
         return
     if not teq(va, vb):
         out.append((p, "%s %s came back as %s %s" % (type(va).__name__, short(va), type(vb).__name__, short(vb))))
+        return
+    if isinstance(f, cc.ChallengeField) and isinstance(va, cc.DigestValue) and isinstance(vb, cc.DigestValue):
+        # the same challenges succeed and fail before and after
+        for w in CHALLENGE_WORDS:
+            oa, ob = _challenge(va, w), _challenge(vb, w)
+            if oa != ob:
+                out.append((p, "challenge(%r) %s before and %s after the reload" % (w, oa, ob)))
+                break
+            if oa == "passes":
+                norms.add("challenge-passes")
 
 
 PLAIN_TYPES = (str, int, float, bool, type(None), list, dict)
@@ -1555,11 +1634,11 @@ def _impl(case, res, tmp):
         rejected = sum(0 if rich_op(b, root, op) else 1 for op in case["ops"])
     if rejected:
         tags.add("op-rejected")
-    direct_oracle(case, res, root, schema, kf, default_key)
+    direct_oracle(case, res, root, schema, kf, default_key, tmp)
     return obs
 
 
-def direct_oracle(case, res, root, schema, kf, default_key):
+def direct_oracle(case, res, root, schema, kf, default_key, tmp=None):
     from cincoconfig.core import Config
     tags = res["tags"]
     # ---- clause 2 and 3: the tree -----------------------------------------------------------------
@@ -1610,26 +1689,46 @@ def direct_oracle(case, res, root, schema, kf, default_key):
     # ---- clause 1: the round trip, per format and option ---------------------------------------------------
     done = 0
     if valid and rep["plain"]:
-        for fmt, opts in case["combos"]:
-            label = fmt + ("" if not opts else "(" + ",".join("%s=%s" % kv for kv in sorted(opts.items())) + ")")
+        for idx, combo in enumerate(case["combos"]):
+            fmt, opts = combo[0], combo[1]
+            via_file = len(combo) > 2 and tmp is not None     # the FILE route: cfg.save(path, fmt) / fresh.load(path, fmt)
+            label = fmt + ("" if not opts else "(" + ",".join("%s=%s" % kv for kv in sorted(opts.items())) + ")") + (" via save/load" if via_file else "")
             if fmt in ("xml", "bson") and not rep[fmt]:
                 tags.add("skip:%s-unrepresentable" % fmt)
                 continue
-            try:
-                doc = root.dumps(format=fmt, **opts)
-            except Exception as e:  # noqa
-                add(res, "%s: dumps raised %s at %s" % (label, type(e).__name__, err_path(e)), clause="rt", what="dump-raise", path=err_path(e), fmt=fmt)
-                continue
-            if not isinstance(doc, bytes):
-                add(res, "%s: dumps returned %s" % (label, type(doc).__name__), clause="rt", what="dump-type", path=None, fmt=fmt)
-                continue
             fresh = Config(schema, key_filename=kf) if kf else schema()
-            try:
-                fresh.loads(doc, format=fmt, **opts)
-            except Exception as e:  # noqa
-                add(res, "%s: loading the saved document raised %s at %s" % (label, type(e).__name__, err_path(e)),
-                    clause="rt", what="load-raise", path=err_path(e), fmt=fmt)
-                continue
+            if via_file:
+                path = os.path.join(tmp, "doc-%d.%s" % (idx, fmt))
+                try:
+                    root.save(path, fmt)
+                except Exception as e:  # noqa
+                    add(res, "%s: save raised %s at %s" % (label, type(e).__name__, err_path(e)), clause="rt", what="dump-raise", path=err_path(e), fmt=fmt)
+                    continue
+                with open(path, "rb") as fp:
+                    doc = fp.read()
+                if doc[:1].isspace() or doc[-1:].isspace():
+                    tags.add("file-edge-whitespace:" + fmt)      # a document whose first / last byte is ASCII white space
+                try:
+                    fresh.load(path, fmt)
+                except Exception as e:  # noqa
+                    add(res, "%s: loading the saved file raised %s at %s" % (label, type(e).__name__, err_path(e)),
+                        clause="rt", what="load-raise", path=err_path(e), fmt=fmt)
+                    continue
+            else:
+                try:
+                    doc = root.dumps(format=fmt, **opts)
+                except Exception as e:  # noqa
+                    add(res, "%s: dumps raised %s at %s" % (label, type(e).__name__, err_path(e)), clause="rt", what="dump-raise", path=err_path(e), fmt=fmt)
+                    continue
+                if not isinstance(doc, bytes):
+                    add(res, "%s: dumps returned %s" % (label, type(doc).__name__), clause="rt", what="dump-type", path=None, fmt=fmt)
+                    continue
+                try:
+                    fresh.loads(doc, format=fmt, **opts)
+                except Exception as e:  # noqa
+                    add(res, "%s: loading the saved document raised %s at %s" % (label, type(e).__name__, err_path(e)),
+                        clause="rt", what="load-raise", path=err_path(e), fmt=fmt)
+                    continue
             out, norms = [], set()
             cmp_cfg(root, fresh, "", out, norms)
             tags.update(norms)
